@@ -16,7 +16,11 @@
    a vacuous oracle.
 
    Shapes: bin un cast cond cc (cast chain) ptr (pointer +- integer, p - q, comparisons) | asg (initializer/argument/return/assignment) test
-   opasg incdec | d2l d2r d2u (depth 2, boundary values; ConstEval only).   *)
+   opasg incdec | d2l d2r d2u (depth 2, boundary values; ConstEval only)
+   | fcc fbin fun fcond (C07: conversions between integer and floating types inside a constant expression: cast
+     chains through floating types, + - comparisons && || of converted integers, unary operators, ?:)
+   | vla (C07: the array / VLA decision on bounds that contain a call, a comma operator, a floating condition)
+   | bfinit bfinitf (C07: a static-storage bit-field initialised from an integer / a floating constant).   *)
 EXTENDS ChibiInt
 
 CONSTANTS Shapes,       \* which shapes this configuration explores
@@ -28,6 +32,12 @@ VARIABLES sh, op, op2, a, b, c, x, y, z, ph
 vars == <<sh, op, op2, a, b, c, x, y, z, ph>>
 
 IncDecKinds == {"preinc", "predec", "postinc", "postdec"}
+FBinOps == {"add", "sub", "lt", "gt", "le", "ge", "eq", "ne", "land", "lor"}
+FSrc == {"int", "uint", "long", "ulong"}
+NCKinds == {"call", "comma", "commac"}      \* f(k) | (f(0), k) | (k2, k)
+VlaTypes == {"int", "long", "uchar"}
+FvNames == {FV[n].n : n \in 1..Len(FV)}
+FvByName(nm) == FV[CHOOSE n \in 1..Len(FV) : FV[n].n = nm]
 N1 == {"-"}
 Cases ==
   ({"bin"} \X BinOps \X N1 \X Types \X Types \X N1)
@@ -46,6 +56,18 @@ Cases ==
   \cup ({"ptr"} \X PtrRelOps \X N1 \X N1 \X N1 \X N1)              \* &arr[y] - &arr[z], <, ...
   \cup ({"d2l", "d2r"} \X D2Ops1 \X D2Ops2 \X D2Types \X D2Types \X D2Types)
   \cup ({"d2u"} \X D2Ops1 \X (UnOps \cup {"tolong", "tobool"}) \X D2Types \X D2Types \X N1)
+  \cup ({"fcc"} \X N1 \X (FTypes \cup N1) \X Types \X FTypes \X (Types \cup FTypes))      \* (c)[(op2)](b) x, x : a
+  \cup ({"fbin"} \X FBinOps \X N1 \X FSrc \X FTypes \X (FTypes \cup N1))                 \* (b) x  op  [(c)] y, x, y : a
+  \cup ({"fun"} \X {"neg", "pos", "lnot"} \X N1 \X FSrc \X FTypes \X Types)              \* (c) op (b) x
+  \cup ({"fcond"} \X N1 \X (FTypes \cup N1) \X FSrc \X FTypes \X N1)                     \* z ? (b) x : [(op2)] y
+  \cup ({"vla"} \X {"top"} \X N1 \X NCKinds \X N1 \X VlaTypes)
+  \cup ({"vla"} \X {"binl", "binr"} \X {"add", "sub", "mul", "bor", "shl", "lt"} \X NCKinds \X N1 \X VlaTypes)
+  \cup ({"vla"} \X {"un"} \X {"pos", "neg", "lnot", "bnot", "long", "uchar", "bool"} \X NCKinds \X N1 \X VlaTypes)
+  \cup ({"vla"} \X {"condt", "conde", "land", "lor"} \X {"int"} \X NCKinds \X {"0", "1"} \X VlaTypes)
+  \cup ({"vla"} \X {"condt", "conde", "land", "lor"} \X FTypes \X NCKinds \X FvNames \X VlaTypes)
+  \cup ({"vla"} \X {"fvcast"} \X FTypes \X N1 \X FvNames \X (VlaTypes \cup {"bool"}))      \* (c) 2.5 : an integer constant expression (6.6p6)
+  \cup ({"bfinit"} \X N1 \X N1 \X Types \X Types \X N1)                                 \* static struct { b f : w; } s = { x : a }
+  \cup ({"bfinitf"} \X N1 \X N1 \X FTypes \X Types \X N1)                               \* ... = { FV[x] : a }
 
 Bnd(t) == IF t = "-" THEN {0} ELSE {MinV(t), -1, 0, 1, MaxV(t)} \cap Vals(t)
 All(t) == IF t = "-" THEN {0} ELSE Vals(t)
@@ -65,6 +87,10 @@ Next == /\ ph = 0 /\ ph' = 1
            THEN x' \in Bnd(a) /\ y' \in Bnd(b) /\ z' \in Bnd(c)
            ELSE IF sh = "cond" THEN x' \in Bnd(a) /\ y' \in Bnd(b) /\ z' \in All(c)
            ELSE IF sh = "fcmp" THEN x' \in 1..Len(FV) /\ y' \in 1..Len(FV) /\ z' = 0
+           ELSE IF sh = "fbin" THEN x' \in All(a) /\ y' \in ({MinV(a), -1, 1, 3, MaxV(a)} \cap Vals(a)) /\ z' = 0
+           ELSE IF sh = "fcond" THEN x' \in All(a) /\ y' \in Bnd(a) /\ z' \in {0, 1}
+           ELSE IF sh = "vla" THEN x' \in 1..3 /\ y' \in 1..2 /\ z' = 0
+           ELSE IF sh = "bfinitf" THEN x' \in 1..Len(FV) /\ y' = 0 /\ z' = 0
            ELSE IF sh = "case" THEN x' \in All(a) /\ y' \in All(b) /\ z' = 0
            ELSE IF sh = "enum" THEN x' \in Bnd("int") /\ y' \in All(a) /\ z' = 0
            ELSE IF sh \in {"opasg", "aopasg"} /\ ~OpAsgAll THEN x' \in Bnd(a) /\ y' \in Bnd(b) /\ z' = 0
@@ -134,8 +160,40 @@ Tree == CASE sh = "bin"  -> BinE(op, L(a, x), L(b, y))
           [] sh = "d2u"  -> IF op2 = "tolong" THEN CastE("long", BinE(op, L(a, x), L(b, y)))
                             ELSE IF op2 = "tobool" THEN CastE("bool", BinE(op, L(a, x), L(b, y)))
                             ELSE UnE(op2, BinE(op, L(a, x), L(b, y)))
+          [] sh = "fcc"  -> IF op2 = "-" THEN CastE(c, CastE(b, L(a, x))) ELSE CastE(c, CastE(op2, CastE(b, L(a, x))))
+          [] sh = "fbin" -> BinE(op, CastE(b, L(a, x)), IF c = "-" THEN L(a, y) ELSE CastE(c, L(a, y)))
+          [] sh = "fun"  -> CastE(c, UnE(op, CastE(b, L(a, x))))
+          [] sh = "fcond" -> CondE(L("int", z), CastE(b, L(a, x)), IF op2 = "-" THEN L(a, y) ELSE CastE(op2, L(a, y)))
           [] OTHER -> L("int", 0)
-ConstInv == (ph = 1 /\ sh \in {"bin", "un", "cast", "cond", "cc", "d2l", "d2r", "d2u"}) => ConstAgrees(Tree)
+ConstInv == (ph = 1 /\ sh \in {"bin", "un", "cast", "cond", "cc", "d2l", "d2r", "d2u", "fcc", "fbin", "fun", "fcond"}) => ConstAgrees(Tree)
+
+(* C07: array bounds that are not (all) constant.  NC = the non-constant operand: a call f(k), `(f(0), k)`, or the
+   constant-only comma `(k2, k)`; k = x, k2 = y of type c; cnd = the condition of ?: / left operand of && || *)
+NC == CASE a = "call" -> CallE("int", x)
+        [] a = "comma" -> CommaE(CallE("int", 0), L(c, x))
+        [] OTHER -> CommaE(L("int", y), L(c, x))
+Cnd == IF op2 = "int" THEN L("int", IF b = "1" THEN 1 ELSE 0) ELSE FvE(op2, FvByName(b))
+VlaTree ==
+  CASE op = "top" -> NC
+    [] op = "fvcast" -> CastE(c, Cnd)
+    [] op = "binl" -> BinE(op2, NC, L(c, y))
+    [] op = "binr" -> BinE(op2, L(c, y), NC)
+    [] op = "un" -> IF op2 \in UnOps THEN UnE(op2, NC) ELSE CastE(op2, NC)
+    [] op = "condt" -> CondE(Cnd, NC, L(c, y))
+    [] op = "conde" -> CondE(Cnd, L(c, y), NC)
+    [] op = "land" -> BinE("add", L(c, y), BinE("land", Cnd, NC))
+    [] OTHER -> BinE("add", L(c, y), BinE("lor", Cnd, NC))
+VlaInv == (ph = 1 /\ sh = "vla") => ArrayDecision(VlaTree)
+
+(* C07: a static-storage bit-field member of type b and every width w it can have, initialised with x : a *)
+BfWidths(t) == IF t = "bool" THEN {1} ELSE 1..W(t)
+BfInv ==
+  /\ (ph = 1 /\ sh = "bfinit") =>
+        \A w \in BfWidths(b) : LET la == BitFieldInit(b, w, a, x) IN
+                                la.ok => BfRead(b, w, BfStore(b, w, L(a, x))) = la.v
+  /\ (ph = 1 /\ sh = "bfinitf") =>
+        \A w \in BfWidths(b) : LET cv == FToInt(FV[x], b) IN
+                                cv.ok => BfRead(b, w, BfStore(b, w, FvE(a, FV[x]))) = (IF b = "bool" THEN cv.v ELSE NWrap(w, Sg(b), cv.v))
 
 (* floating operands of comparisons, !, &&, ||: eval3 folds them to the C11 / IEC 60559 truth value,
    in particular 0 for every ordered comparison with a NaN operand *)
